@@ -4,7 +4,7 @@ CONSTANTS
   FactorNames <- N_mid
   Powers <- P_pm2
   MaxFactors = 1
-  Mags <- M_one
+  Mags <- M_zero
   TargetNames <- N_tiny
   TargetPowers <- P_pm2
   MaxTFactors = 1
